@@ -73,6 +73,11 @@ type (
 	RaceClassifier interface {
 		KnownRace(tier string, rb RaceReport) string
 	}
+	// CrashClassifier attributes the death of a child process at case idx to a recorded finding (returns its key,
+	// or ""); stderr is everything the dying process wrote.
+	CrashClassifier interface {
+		KnownCrash(tier string, seed int64, idx int, stderr string) string
+	}
 	// Paralleler bounds the number of concurrent children.
 	Paralleler interface{ Parallel(tier string) int }
 )
@@ -211,6 +216,9 @@ func workerMain(args []string) int {
 		n, _ := strconv.Atoi(s)
 		skipSet[n] = true
 	}
+	// a runaway recursion in the library dies at 256 MB of stack instead of 1 GB (seconds instead of minutes);
+	// the deepest legitimate cases (schemas nested 2000 levels) need a few tens of MB
+	debug.SetMaxStack(256 << 20)
 	w := &Worker{Prop: p, Tier: *tier, Seed: *seed, Replay: *replay, WorkDir: filepath.Dir(*out)}
 	kf, err := LoadKnownFindings(filepath.Join(VerifDir(), "known_findings.txt"))
 	if err != nil {
@@ -442,6 +450,7 @@ func parentMain(args []string) int {
 	agg.Tags = map[string]int64{}
 	agg.Nums = map[string]int64{}
 	agg.Known = map[string]*KnownAgg{}
+	parentKnown, _ := LoadKnownFindings(filepath.Join(VerifDir(), "known_findings.txt"))
 	hashSet := map[uint64]struct{}{}
 	var mu sync.Mutex
 	var broken []string
@@ -476,15 +485,38 @@ func parentMain(args []string) int {
 					c.tries++
 					rec := ViolationRec{Index: res.crashedAt, What: res.crashKind, Detail: res.stderrTail}
 					agg.RaceBlocks = append(agg.RaceBlocks, res.races...)
+					died := !res.hang
 					if res.hang {
-						// bounded progress: confirm alone before calling it a violation
-						if confirmHang(p, bin, *tier, seed, res.crashedAt, work) {
+						// bounded progress: confirm alone before calling it a violation; a case which, alone, kills
+						// its process instead of hanging (a runaway recursion reaching the stack limit) is a death
+						alone := confirmHang(p, bin, *tier, seed, res.crashedAt, work)
+						switch {
+						case alone.hang:
 							agg.Crashes = append(agg.Crashes, rec)
-						} else {
+						case alone.crashedAt >= 0:
+							died = true
+							res.stderrFull = alone.stderrFull
+							rec = ViolationRec{Index: res.crashedAt, What: alone.crashKind, Detail: alone.stderrTail}
+						default:
 							agg.Inconclusive = append(agg.Inconclusive, fmt.Sprintf("case %d: watchdog fired once, not reproduced alone", res.crashedAt))
 						}
-					} else {
-						agg.Crashes = append(agg.Crashes, rec)
+					}
+					if died {
+						key := ""
+						if cc, ok := p.(CrashClassifier); ok && parentKnown != nil {
+							if k := cc.KnownCrash(*tier, seed, res.crashedAt, res.stderrFull); k != "" && parentKnown.Listed(p.ID(), k) {
+								key = k
+							}
+						}
+						if key != "" {
+							if cur := agg.Known[key]; cur == nil {
+								agg.Known[key] = &KnownAgg{Count: 1, Index: res.crashedAt, First: rec.What}
+							} else {
+								cur.Count++
+							}
+						} else {
+							agg.Crashes = append(agg.Crashes, rec)
+						}
 					}
 					if len(c.skip) < 25 {
 						c.skip = append(c.skip, res.crashedAt)
@@ -528,6 +560,7 @@ type chunkResult struct {
 	hang       bool
 	initFailed bool
 	stderrTail string
+	stderrFull string // up to 4 MB of what the child wrote, kept only when it died
 	races      []RaceReport
 }
 
@@ -582,6 +615,12 @@ func runChunk(p Property, bin string, race bool, tier string, seed int64, c *chu
 		idx := int(int64(binary.LittleEndian.Uint64(mb)))
 		if idx >= 0 {
 			res.crashedAt = idx
+			if fb, ferr := os.ReadFile(out + ".stderr"); ferr == nil {
+				if len(fb) > 4<<20 {
+					fb = fb[:4<<20]
+				}
+				res.stderrFull = string(fb)
+			}
 			if ee, ok := err.(*exec.ExitError); ok && ee.ExitCode() == 3 && strings.Contains(tail, "WATCHDOG case=") {
 				res.hang = true
 				res.crashKind = "bounded-progress watchdog: case did not return"
@@ -620,10 +659,9 @@ func tailFile(path string, n int) string {
 	return string(b)
 }
 
-func confirmHang(p Property, bin, tier string, seed int64, idx int, work string) bool {
+func confirmHang(p Property, bin, tier string, seed int64, idx int, work string) chunkResult {
 	c := &chunk{from: idx, to: idx + 1}
-	r := runChunk(p, bin, false, tier, seed, c, work)
-	return r.hang
+	return runChunk(p, bin, false, tier, seed, c, work)
 }
 
 func mergeSummary(a *Aggregate, s *Summary) {
